@@ -35,6 +35,35 @@ def judge_runs(rep, traces, wd, name='MachineTrace'):
     return bad
 
 
+def judge_runs128(rep, traces, wd):
+    """128K lock-step runs judged by Machine128.tla (Z80!Step composed with the 0x7FFD latch over physical pages)."""
+    bad = []
+    step = 1500
+    keys = ('pair', 'ints', 'frame', 'ia', 'inv', 'sem', 'tsem', 'r0', 'pov0', 'o70')
+    okeys = ('r', 'pw', 'io', 'exc', 'r2', 'same2', 'o7', 'tr', 'vis3', 'vis0')
+    for b in range(0, len(traces), step):
+        part = traces[b:b + step]
+        slim = [dict({k: t[k] for k in keys}, obs=[{k: o[k] for k in okeys} for o in t['obs']]) for t in part]
+        path = os.path.join(wd, 'm128traces.json')
+        with open(path, 'w') as f:
+            json.dump(slim, f, separators=(',', ':'))
+        r = tlc.run(os.path.join(tlc.SPEC, 'z80'), 'Machine128', 'Machine128.cfg', env={'CASES': path},
+                    tag='Machine128', timeout=3000, heap='16g')
+        tlc.check_machinery(r, 'Machine128')
+        rep.add_tlc(r, 'Machine128', traces=len(part))
+        failed = {}
+        for code, clause in r.fails:
+            failed[code // 1000 - 1] = (code % 1000, clause)
+        expect = sum((failed[i][0] if i in failed else len(t['obs'])) + 1 for i, t in enumerate(part))
+        if r.distinct != expect:
+            raise MachineryError('Machine128: expected %d states, TLC found %d\n%s' % (expect, r.distinct, r.out[-3000:]))
+        for i, (l, clause) in failed.items():
+            if clause.startswith('machinery'):
+                raise MachineryError('Machine128: %s in trace %d step %d' % (clause, i, l))
+            bad.append((part[i], l, clause))
+    return bad
+
+
 def run(tier):
     rep = Report(PID, tier)
     wd = workdir('c06')
@@ -42,13 +71,41 @@ def run(tier):
     cbuild.build()
     nprogs, steps = (30, 120) if tier == 'quick' else (420, 400)
     args = [(sd * 977 + k, nprogs, steps) for k in range(16)]
+    n128, steps128 = (10, 100) if tier == 'quick' else (140, 300)
+    args128 = [(sd * 1201 + 5 + k, n128, steps128) for k in range(16)]
     with mp.get_context('fork').Pool(16) as pool:
+        parts128 = pool.map_async(progdrv.lockstep128, args128)
         parts = pool.map(progdrv.lockstep, args)
+        parts128 = parts128.get()
     traces = [t for p in parts for t in p]
+    traces128 = [t for p in parts128 for t in p]
     nsteps = sum(len(t['obs']) for t in traces)
     log('C06: %d lock-step runs, %d instruction boundaries' % (len(traces), nsteps))
     bad = judge_runs(rep, traces, wd)
-    rep.evaluations = nsteps * 2
+    nsteps128 = sum(len(t['obs']) for t in traces128)
+    log('C06: %d 128K lock-step runs, %d instruction boundaries' % (len(traces128), nsteps128))
+    bad128 = judge_runs128(rep, traces128, wd)
+    pagings = sum(1 for t in traces128 for i, o in enumerate(t['obs']) if o['o7'] != (t['o70'] if i == 0 else t['obs'][i - 1]['o7']))
+    locked_outs = sum(1 for t in traces128 for i, o in enumerate(t['obs'])
+                      if (t['o70'] if i == 0 else t['obs'][i - 1]['o7']) & 32 and any(e[0] == 'o' and e[1] & 0x8002 == 0 for e in o['io']))
+    rep.extra['paging_changes_in_128k_traces'] = pagings
+    rep.extra['writes_to_7ffd_while_locked'] = locked_outs
+    rep.extra['boundaries_128k'] = nsteps128
+    if pagings < 20 or locked_outs < 1:
+        raise MachineryError('vacuous C06 128K run: %d paging changes, %d locked writes' % (pagings, locked_outs))
+    for t, l, clause in bad128:
+        o = t['obs'][l - 1]
+        pre = t['r0'] if l == 1 else t['obs'][l - 2]['r']
+        rep.violation('run128:%s:%s' % (t['pair'], clause),
+                      '%s 128K program (%s), step %d from PC=%d T=%d latch=%d: %s; observed r=%s partner r=%s o7=%s vis3=%s'
+                      % (t['pair'], t['kind'], l, pre[24], pre[25], t['o70'] if l == 1 else t['obs'][l - 2]['o7'], clause, o['r'],
+                         o['r2'], o['o7'], o['vis3']), t)
+    for t in traces128:
+        if not t['loop_ok']:
+            rep.violation('loop128:%s' % t['pair'],
+                          '%s (128K): %d instructions executed by ONE call of the trace loop end in a different state than one call '
+                          'at a time: %s' % (t['pair'], len(t['obs']), t['whole']), t)
+    rep.evaluations = (nsteps + nsteps128) * 2
     ints = halts = 0
     for t in traces:
         for i, o in enumerate(t['obs']):
@@ -76,6 +133,9 @@ def run(tier):
                           'instructions executed one call at a time (start T=%d): %s' % (t['pair'], len(t['obs']), t['r0'][25], t['whole']), t)
     rep.rule = ('generated programs (byte soup, prefix-heavy, structured EI/HALT/IM2/loops/block ops/self-modifying, code '
                 'straddling 0xFFFF) run one instruction at a time through trace.py\'s loop on py+c and pycm+ccm; every boundary '
-                'judged by TLC as Z80!StepInt and for bit-identical pair state; distinct_nontrivial = distinct (pair, PC, dT)')
+                'judged by TLC as Z80!StepInt and for bit-identical pair state; 128K programs (0x7FFD paging incl. ROM/lock bits, '
+                'decoded and undecoded ports, OUTI, stores/stack/calls into the paged bank, interrupts right after paging) judged '
+                'by Machine128 (Step + latch + physical pages); runs that page bank 2/5 in at 0xC000 are judged for pair '
+                'agreement, latch, ranges and ROM immutability only; distinct_nontrivial = distinct (pair, PC, dT)')
     rmworkdir('c06')
     return rep.finish()
